@@ -344,7 +344,7 @@ impl<'data> ProguardCache<'data> {
         for mut c in classes.into_values() {
             // We can now set the class's members_offset/members_by_params_offset.
             c.class.members_offset = members.len() as u32;
-            c.class.members_by_params_offset = members.len() as u32;
+            c.class.members_by_params_offset = members_by_params.len() as u32;
             members.extend(c.members.into_values().flat_map(|m| m.into_iter()));
             members_by_params.extend(
                 c.members_by_params
